@@ -13,6 +13,10 @@ def dominated(f, head):
     return {b for b, ds in dom.items() if head in ds}
 
 
+class FlagTableFork(AnalysisError):
+    """the arm tcp::repl selects is a relation of the flags (guards mix the flags with other request data): .rows = {value: [arm heads]}"""
+
+
 def tcp_table(F):
     """P6 on the flag dispatch of tcp::repl: for each of the 512 flag values the arm head block.
     Returns dict(value->head), f, and per-head info."""
@@ -51,7 +55,7 @@ def tcp_table(F):
                     if f.locals[st['lhs']['l']]['ty'] in ('u16', "&'{erased} u16"):
                         fl.add(st['lhs']['l'])
                         changed = True
-    for h in sorted(set(table.values())):
+    def consults_flags(h):
         for b2 in f.reachable(h):
             blk = f.blocks[b2]
             if blk['cleanup']:
@@ -63,7 +67,52 @@ def tcp_table(F):
                 ops += [rv[k_] for k_ in ('a', 'b') if isinstance(rv.get(k_), dict)] + list(rv.get('ops', []))
             if any(o.get('k') in ('copy', 'move') and o['place']['l'] in fl and f.locals[o['place']['l']]['ty'] != 'u16' for o in ops) or \
                     any(o.get('k') in ('copy', 'move') and o['place']['l'] in fl and t2['k'] == 'call' and o in t2.get('args', []) for o in ops):
-                raise AnalysisError('tcp::repl: the flag dispatch continues inside an arm (the flags are passed to a call at %s): the decision table cannot be extracted' % f.loc(b2))
+                return b2
+        return None
+
+    impure = {h: consults_flags(h) for h in sorted(set(table.values()))}
+    if any(x is not None for x in impure.values()):
+        b2 = [x for x in impure.values() if x is not None][0]
+        msg = 'tcp::repl: the flag dispatch continues inside an arm (the flags are passed to a call at %s): the decision table cannot be extracted' % f.loc(b2)
+        # A guard that mixes the flags with other data of the request (`.. && !req.payload().is_empty()`): the arm is then
+        # not a function of the flags.  Explore both outcomes of every test on such data; if that ends, for every flag
+        # value, in arms that no longer consult the flags, the relation value -> {arms} is handed to the caller, which
+        # decides whether any row can select an arm its property forbids.  Anything else stays "no verdict".
+        PURE = r"TcpPacket::<.*>::(get_\w+)$|Packet>::payload$|Packet::payload$|\[u8\]>::(is_empty|len)$|\[T\]>::(is_empty|len)$"
+        rows = {}
+        try:
+            for v in range(512):
+                ends = set()
+                work = [(table[v], {t['dest']['l']: v}, 0)]
+                while work:
+                    h, env, depth = work.pop()
+                    if impure.get(h, consults_flags(h)) is None:
+                        ends.add(h)
+                        continue
+                    t2 = f.blocks[h]['term']
+                    c2 = (t2.get('resolved') or [t2.get('callee', '')])[0] if t2['k'] == 'call' else ''
+                    if depth > 8 or t2['k'] != 'call' or not (re.search(PURE, c2) or re.search(PURE, t2.get('callee', ''))) or t2['target'] < 0:
+                        raise AnalysisError(msg)
+                    env2 = {k_: v_ for k_, v_ in env.items() if k_ != t2['dest']['l']}
+                    k, b, env3 = eval_region(f, t2['target'], env2)
+                    if k == 'arm':
+                        work.append((b, env3, depth + 1))
+                    elif k == 'stuck' and f.blocks[b]['term']['k'] == 'switch':
+                        for s_ in sorted(set(f.succ[b])):
+                            k4, b4, env4 = eval_region(f, s_, env3)
+                            if k4 != 'arm':
+                                raise AnalysisError(msg)
+                            work.append((b4, env4, depth + 1))
+                    else:
+                        raise AnalysisError(msg)
+                rows[v] = sorted(ends)
+        except AnalysisError:
+            raise AnalysisError(msg)
+        except Exception:
+            raise AnalysisError(msg)
+        e = FlagTableFork(msg + ' - explored: the arm of %d flag values depends on data other than the flags' % len([v for v in rows if len(rows[v]) > 1]))
+        e.rows, e.fn = rows, f
+        raise e
     return f, table, bi
 
 
@@ -479,6 +528,24 @@ def some_points(f):
                 if f.locals[s['lhs']['l']]['ty'] == rty and s['lhs']['l'] in flows:
                     out.append(bi)
     return sorted(set(out))
+
+
+def forwarded_reply_points(f):
+    """Blocks whose call hands its result - a value of the function's own reply Option type - straight to the return place
+    (`return callee(..)`): a reply can be materialised there although no `Some` is built in this function."""
+    rty = f.locals[0]['ty']
+    if rty.startswith('('):
+        return []
+    flows = returned_locals(f)
+    out = []
+    for bi, b in enumerate(f.blocks):
+        t = b['term']
+        if b['cleanup'] or t['k'] != 'call':
+            continue
+        d = t['dest']
+        if not d['p'] and d['l'] in flows and f.locals[d['l']]['ty'] == rty and rty.startswith('std::option::Option<'):
+            out.append(bi)
+    return out
 
 
 def is_none_fact(facts, key):
